@@ -1,6 +1,7 @@
 package worlds
 
 import (
+	"math"
 	"fmt"
 	"sort"
 	stdsync "sync"
@@ -213,7 +214,11 @@ func futureScenario(r *R) {
 			ctx = NewCtx(root, fmt.Sprintf("w%d", i))
 			cancellable = append(cancellable, ctx)
 		case 3:
-			ctx = PreCancelled(root, fmt.Sprintf("w%d", i))
+			if r.Choose(3, "dead-by-deadline") == 2 {
+				ctx = PastDeadline(root, fmt.Sprintf("w%d", i)) // ended by a deadline already in the past
+			} else {
+				ctx = PreCancelled(root, fmt.Sprintf("w%d", i))
+			}
 			r.Fault("ctx_precancelled")
 		}
 		sim.GoNamed(fmt.Sprintf("waiter%d", i), func() {
@@ -526,7 +531,7 @@ func mapScenario(r *R) {
 		if r.Choose(2, "vtype") == 0 {
 			mapDiff[any, int](r, "any", "int", keys, []int{0, 1, 2, 3})
 		} else {
-			mapDiff[any, any](r, "any", "any", keys, []any{nil, 1, "x", 2.5})
+			mapDiff[any, any](r, "any", "any", keys, []any{nil, 1, "x", 2.5, 0.0, math.Copysign(0, -1)})
 		}
 		return
 	}
@@ -543,7 +548,7 @@ func mapScenario(r *R) {
 		e1, e2 := NewErr("m1"), NewErr("m2")
 		mapDiff[int, error](r, "int", "error", keys, []error{nil, e1, e2, e1})
 	default:
-		mapDiff[int, any](r, "int", "any", keys, []any{nil, 1, "x", 2.5})
+		mapDiff[int, any](r, "int", "any", keys, []any{nil, 1, "x", 2.5, 0.0, math.Copysign(0, -1)})
 	}
 }
 
@@ -551,7 +556,15 @@ func mapDiff[K comparable, V any](r *R, kname, vname string, keys []K, vals []V)
 	var m xsync.Map[K, V]
 	var ref stdsync.Map
 	nops := 4 + r.Choose(24, "nops")
-	eq := func(a, b any) bool { return a == b }
+	eq := func(a, b any) bool {
+		// (what was stored is what comes back: +0.0 and -0.0 are equal but not the same value)
+		if fa, ok := a.(float64); ok {
+			if fb, ok := b.(float64); ok {
+				return math.Float64bits(fa) == math.Float64bits(fb)
+			}
+		}
+		return a == b
+	}
 	isNilIface := func(v V) bool { return any(v) == nil }
 	call := func(op string, key K, f func() (any, bool, bool), g func() (any, bool)) bool {
 		// f: xsync (value, flag, -), g: sync
